@@ -70,8 +70,10 @@ AddRec(a, b, n, i, c, acc) ==
     IF i > n THEN (IF c = 0 THEN acc ELSE Append(acc, c))
     ELSE LET s == Dg(a, i) + Dg(b, i) + c
          IN AddRec(a, b, n, i+1, s \div Base, Append(acc, s % Base))
-Add(a, b) == IF Len(b) = 0 THEN a ELSE IF Len(a) = 0 THEN b
-             ELSE AddRec(a, b, Max2(Len(a), Len(b)), 1, 0, <<>>)
+AddDef(a, b) == IF Len(b) = 0 THEN a ELSE IF Len(a) = 0 THEN b
+                ELSE AddRec(a, b, Max2(Len(a), Len(b)), 1, 0, <<>>)
+AddF(bs, a, b) == AddDef(a, b)          \* accelerated entry point, see the note at the end of this module
+Add(a, b) == AddF(Base, a, b)
 
 \* subtraction a - b, defined for a >= b
 RECURSIVE SubRec(_, _, _, _, _)
@@ -80,7 +82,9 @@ SubRec(a, b, i, br, acc) ==
     ELSE LET d == a[i] - Dg(b, i) - br
          IN IF d < 0 THEN SubRec(a, b, i+1, 1, Append(acc, d + Base))
                      ELSE SubRec(a, b, i+1, 0, Append(acc, d))
-Sub(a, b) == IF Len(b) = 0 THEN a ELSE Norm(SubRec(a, b, 1, 0, <<>>))
+SubDef(a, b) == IF Len(b) = 0 THEN a ELSE Norm(SubRec(a, b, 1, 0, <<>>))
+SubF(bs, a, b) == SubDef(a, b)
+Sub(a, b) == SubF(Base, a, b)
 
 \* |a - b|
 AbsDiff(a, b) == IF Ge(a, b) THEN Sub(a, b) ELSE Sub(b, a)
@@ -114,10 +118,12 @@ MulCols(a, b, k, c, acc) ==
     IF k > Len(a) + Len(b) - 1 THEN acc \o CarryDigits(c)
     ELSE LET s == ColSum(a, b, k, Max2(1, k + 1 - Len(b)), Min2(k, Len(a))) + c
          IN MulCols(a, b, k+1, s \div Base, Append(acc, s % Base))
-Mul(a, b) == IF Len(a) = 0 \/ Len(b) = 0 THEN <<>>
-             ELSE IF Len(b) = 1 THEN MulSmall(a, b[1])
-             ELSE IF Len(a) = 1 THEN MulSmall(b, a[1])
-             ELSE MulCols(a, b, 1, 0, <<>>)
+MulDef(a, b) == IF Len(a) = 0 \/ Len(b) = 0 THEN <<>>
+                ELSE IF Len(b) = 1 THEN MulSmall(a, b[1])
+                ELSE IF Len(a) = 1 THEN MulSmall(b, a[1])
+                ELSE MulCols(a, b, 1, 0, <<>>)
+MulF(bs, a, b) == MulDef(a, b)
+Mul(a, b) == MulF(Base, a, b)
 
 -----------------------------------------------------------------------------
 \* division by a native integer m with 1 <= m and m * Base < 2^30: <<quotient, remainder (native)>>
@@ -140,12 +146,14 @@ DivRec(a, b, i, r, q) ==
     IF i = 0 THEN <<Norm(q), r>>
     ELSE LET r1 == Norm(<<a[i]>> \o r)
              d  == IF Cmp(r1, b) < 0 THEN 0 ELSE QDig(r1, b, 1, Base - 1)
-             r2 == IF d = 0 THEN r1 ELSE Sub(r1, MulSmall(b, d))
+             r2 == IF d = 0 THEN r1 ELSE SubDef(r1, MulSmall(b, d))
          IN DivRec(a, b, i-1, r2, <<d>> \o q)
 \* <<a div b, a mod b>> for b # 0
-DivMod(a, b) == IF Cmp(a, b) < 0 THEN <<NZero, a>>
-                ELSE IF Len(b) = 1 THEN LET qr == DivModSmall(a, b[1]) IN <<qr[1], FromInt(qr[2])>>
-                ELSE DivRec(a, b, Len(a), <<>>, <<>>)
+DivModDef(a, b) == IF Cmp(a, b) < 0 THEN <<NZero, a>>
+                   ELSE IF Len(b) = 1 THEN LET qr == DivModSmall(a, b[1]) IN <<qr[1], FromInt(qr[2])>>
+                   ELSE DivRec(a, b, Len(a), <<>>, <<>>)
+DivModF(bs, a, b) == DivModDef(a, b)
+DivMod(a, b) == DivModF(Base, a, b)
 Div(a, b) == DivMod(a, b)[1]
 Mod(a, b) == DivMod(a, b)[2]
 
@@ -164,11 +172,17 @@ Pow(a, e) == IF e = 0 THEN NOne
 \* (exponents range up to 2^32-1).  For a >= 2 at most Len(cap)*log2(Base)
 \* multiplications are performed.
 Over == <<-1>>
-RECURSIVE PowCapRec(_, _, _, _)
-PowCapRec(a, e, cap, acc) ==      \* e native here, acc = a^(done so far) <= cap
-    IF e = 0 THEN acc
-    ELSE LET nx == Mul(acc, a)
-         IN IF Gt(nx, cap) THEN Over ELSE PowCapRec(a, e-1, cap, nx)
+\* square-and-multiply from the most significant exponent bit: every intermediate value is a power
+\* a^(prefix of e) <= a^e (a >= 1), so a^e <= cap iff no intermediate exceeds cap.
+RECURSIVE PowCapRec(_, _, _)
+PowCapRec(a, e, cap) ==           \* e native
+    IF e = 0 THEN NOne
+    ELSE LET h == PowCapRec(a, e \div 2, cap)
+         IN IF h = Over THEN Over
+            ELSE LET sq == Mul(h, h)
+                 IN IF Gt(sq, cap) THEN Over
+                    ELSE IF e % 2 = 0 THEN sq
+                    ELSE LET m == Mul(sq, a) IN IF Gt(m, cap) THEN Over ELSE m
 \* bits of cap bounds the number of steps when a >= 2
 PowCapped(a, e, cap) ==
     IF IsZero(e) THEN (IF Ge(cap, NOne) THEN NOne ELSE Over)
@@ -176,6 +190,18 @@ PowCapped(a, e, cap) ==
     ELSE IF a = NOne THEN (IF Ge(cap, NOne) THEN NOne ELSE Over)
     ELSE IF ~IsSmall(e) THEN Over           \* a >= 2 and e >= 2^24: a^e has > 2^24 bits
     ELSE IF ToInt(e) > 32 * (Len(cap) + 1) THEN Over   \* a^e >= 2^e > Base^(Len(cap)+1) > cap  (Base <= 2^15 < 2^32)
-    ELSE PowCapRec(a, ToInt(e), cap, NOne)
+    ELSE PowCapRec(a, ToInt(e), cap)
 
+-----------------------------------------------------------------------------
+(***************************************************************************)
+(* Accelerated entry points.  AddF, SubF, MulF and DivModF are DEFINED     *)
+(* above as the pure TLA+ operators AddDef, SubDef, MulDef and DivModDef.  *)
+(* When BigNat.class (spec/java/BigNat.java, java.math.BigInteger) is on   *)
+(* the library path, TLC replaces these four operators by the Java methods *)
+(* of the same name.  The override changes no meaning: MC_Fast checks      *)
+(* XF(Base, a, b) = XDef(a, b) exhaustively at small operands and on       *)
+(* pseudo-random operands of up to 1024 bits, and every check can be run   *)
+(* with VERIF_NO_OVERRIDES=1, which removes the class and evaluates the    *)
+(* TLA+ definitions themselves (about 100 times slower at 1024 bits).      *)
+(***************************************************************************)
 =============================================================================
